@@ -5,7 +5,8 @@
 (* emitted for the conformance harness.                                      *)
 EXTENDS NoiseHS, TLC, Json
 
-CONSTANTS Chunks, RoguePayloads
+CONSTANTS Chunks, RoguePayloads,
+          AddrForms   \* forms of the dialed address: "ip4", "ip6", "dns", "dns4", "dns6"
 
 Fields(k) == CASE k = 1 -> {"len", "e"}
                [] k = 2 -> {"len", "e", "encS", "encPayload", "tag"}
@@ -18,19 +19,21 @@ Moves == {Pass}
 ValidMove(m) == m.move = "corrupt" => m.field \in Fields(m.msg)
 
 Scenarios ==
-  {[peer |-> "honest", impl |-> "litep2p", trole |-> "both", pv |-> "none", mitm |-> m, dialed |-> "none", dialedForm |-> "none", chunk |-> c] :
+  {[peer |-> "honest", impl |-> "litep2p", trole |-> "both", pv |-> "none", mitm |-> m, dialed |-> "none", dialedForm |-> "none", addrForm |-> "none", chunk |-> c] :
       m \in {x \in Moves : ValidMove(x)}, c \in Chunks}
-  \cup {[peer |-> "honest", impl |-> "libp2p", trole |-> r, pv |-> "none", mitm |-> m, dialed |-> "none", dialedForm |-> "none", chunk |-> c] :
+  \cup {[peer |-> "honest", impl |-> "libp2p", trole |-> r, pv |-> "none", mitm |-> m, dialed |-> "none", dialedForm |-> "none", addrForm |-> "none", chunk |-> c] :
       r \in {"dialer", "listener"}, m \in {x \in Moves : ValidMove(x)}, c \in Chunks}
-  \* dialed-peer expectations: the right key / another key, each as inline and as SHA-256-form peer id
-  \cup {[peer |-> "honest", impl |-> "litep2p", trole |-> "dialer", pv |-> "none", mitm |-> Pass, dialed |-> dl, dialedForm |-> f, chunk |-> "whole"] :
-      dl \in {"B", "C"}, f \in {"inline", "sha256"}}
-  \cup {[peer |-> "rogue", impl |-> "snow", trole |-> r, pv |-> pv, mitm |-> Pass, dialed |-> "none", dialedForm |-> "none", chunk |-> c] :
+  \* dialed-peer expectations: the right key / another key, each as inline and as SHA-256-form peer id,
+  \* and the form of the dialed address (the acceptance rule does not depend on it: NoiseHS!Allowed never
+  \* looks at addrForm -- that independence is what the conformance run checks)
+  \cup {[peer |-> "honest", impl |-> "litep2p", trole |-> "dialer", pv |-> "none", mitm |-> Pass, dialed |-> dl, dialedForm |-> f, addrForm |-> af, chunk |-> "whole"] :
+      dl \in {"B", "C"}, f \in {"inline", "sha256"}, af \in AddrForms}
+  \cup {[peer |-> "rogue", impl |-> "snow", trole |-> r, pv |-> pv, mitm |-> Pass, dialed |-> "none", dialedForm |-> "none", addrForm |-> "none", chunk |-> c] :
       r \in {"dialer", "listener"}, pv \in RoguePayloads, c \in Chunks}
 
 \* ---- histories: short sequences of handshakes against the same process (victim) state
-HStep(r, imp, m) == [peer |-> "honest", impl |-> imp, trole |-> r, pv |-> "none", mitm |-> m, dialed |-> "none", dialedForm |-> "none", chunk |-> "whole"]
-RStep(r, pv) == [peer |-> "rogue", impl |-> "snow", trole |-> r, pv |-> pv, mitm |-> Pass, dialed |-> "none", dialedForm |-> "none", chunk |-> "whole"]
+HStep(r, imp, m) == [peer |-> "honest", impl |-> imp, trole |-> r, pv |-> "none", mitm |-> m, dialed |-> "none", dialedForm |-> "none", addrForm |-> "none", chunk |-> "whole"]
+RStep(r, pv) == [peer |-> "rogue", impl |-> "snow", trole |-> r, pv |-> pv, mitm |-> Pass, dialed |-> "none", dialedForm |-> "none", addrForm |-> "none", chunk |-> "whole"]
 \* the message that carries H's payload to the victim
 PayloadMsg(r) == IF r = "dialer" THEN 2 ELSE 3
 Sequences(r, imp) ==
